@@ -5,7 +5,7 @@
   quantity of an exhausted non-replenishing reserve order, amended `down`) equals everything that
   came (`start` + adds + amended `up`).
 -/
-import PLV.Lemmas.ConcBound
+import PLV.Lemmas.ConcInit
 
 namespace PLV.Conc
 open PLV
@@ -211,5 +211,87 @@ theorem tstep_ledger (x : Id) (s : Shared) (pc : Pc) (hn : (ids s.map).Nodup)
     simp only [tstep]
     cases rest <;> simp [hand, ah_c, ah_d, levAt, tot, otot]
   | _ => simp [tstep, hand, ah_c, ah_d, levAt]
+
+
+/-! ### over schedules -/
+
+def opTot (x : Id) : COp → Nat
+  | .add o => otot x o
+  | _ => 0
+
+/-- what a thread holds of order `x` outside the map, or will bring with the adds it has yet to issue -/
+def thand (x : Id) (t : Thread) : Nat := hand x t.pc + sumOps (opTot x) t.todo
+
+theorem norm_hand (x : Id) {t tn : Thread} (h : t.norm = some tn) : thand x tn = thand x t := by
+  unfold Thread.norm at h
+  split at h
+  · simp at h
+  · rename_i op rest hpc htodo
+    simp at h; subst h
+    simp only [thand, hpc, htodo, sumOps]
+    cases op <;> simp [start, hand, opTot, tot]
+  · simp at h; subst h; rfl
+
+theorem after_hand (x : Id) (tn : Thread) (a : After) :
+    thand x (tn.after a) = a.hand x + sumOps (opTot x) tn.todo := by
+  cases a <;> simp [Thread.after, After.hand, thand, hand]
+
+def levStep (x : Id) (c : Cfg) (i : Nat) : LEv :=
+  match c.ts[i]? with
+  | none => {}
+  | some t =>
+    match t.norm with
+    | none => {}
+    | some tn => levAt x c.sh tn.pc
+
+def runLev (x : Id) (c : Cfg) : List Nat → LEv
+  | [] => {}
+  | i :: rest => (levStep x c i).plus (runLev x (step c i).1 rest)
+
+/-- the ledger of order `x`: everything there is + everything that left = everything that came -/
+def LInv (x : Id) (S0 : Nat) (c : Cfg) (E : LEv) : Prop :=
+  tot x c.sh.map + sumT (thand x) c.ts + E.exec + E.ret + E.disc + E.down = S0 + E.up
+
+theorem LInv.step {x : Id} {S0 : Nat} {c : Cfg} {E : LEv} (hc : CInv c) (h : LInv x S0 c E) (i : Nat) :
+    LInv x S0 (Conc.step c i).1 (E.plus (levStep x c i)) := by
+  cases hti : c.ts[i]? with
+  | none =>
+    rw [step_none (Or.inl hti)]
+    simpa [levStep, hti, LEv.plus, LInv] using h
+  | some t =>
+    cases hn : t.norm with
+    | none =>
+      rw [step_none (Or.inr ⟨t, hti, hn⟩)]
+      simpa [levStep, hti, hn, LEv.plus, LInv] using h
+    | some tn =>
+      obtain ⟨hstep, hfresh, hokn, _⟩ := step_some hc hti hn
+      rw [hstep]
+      have hl := tstep_ledger x c.sh tn.pc hc.nodup hfresh hokn.1
+      have hs := sumT_set (thand x) c.ts i t (tn.after (tstep c.sh tn.pc).2.1) hti
+      rw [after_hand] at hs
+      have hnh := norm_hand x hn
+      have htn : thand x tn = hand x tn.pc + sumOps (opTot x) tn.todo := rfl
+      unfold LInv at h ⊢
+      simp only [levStep, hti, hn, LEv.plus]
+      omega
+
+theorem LInv.run {x : Id} {S0 : Nat} (sched : List Nat) : ∀ {c : Cfg} {E : LEv}, CInv c → LInv x S0 c E →
+    LInv x S0 (Conc.run c sched) (E.plus (runLev x c sched)) := by
+  induction sched with
+  | nil => intro c E _ h; simpa [Conc.run, runLev, LEv.plus, LInv] using h
+  | cons i rest ih =>
+    intro c E hc h
+    have := ih (hc.step i) (h.step hc i)
+    simpa [Conc.run, runLev, LEv.plus, LInv, Nat.add_assoc] using this
+
+/-- once every thread has returned and has nothing left to do, nobody holds anything -/
+theorem done_hand (x : Id) {c : Cfg} (hd : allDone c = true) : sumT (thand x) c.ts = 0 := by
+  apply sumT_zero
+  intro t ht
+  have := List.all_eq_true.1 hd t ht
+  unfold Thread.finished at this
+  split at this
+  · rename_i h1 h2; simp only [thand, h1, h2, hand, sumOps]
+  · simp at this
 
 end PLV.Conc
